@@ -319,6 +319,9 @@ class LocalShare:
             return None
         if not os.path.isdir(self.__path):
             return 0
+        if not os.path.exists(os.path.join(self.__path, "repo.json")):
+            # Nothing has been installed yet.
+            return 0
 
         # Create a temporary attic directory. All garbage collected packages
         # are moved there to delete them without holding any locks.
